@@ -584,7 +584,7 @@ def gen_coverage_case(g, rng, max_steps):
             if same and rng.random() < 0.7:          # swapping two charges of equal `mod` commutes with fusion
                 x, y = rng.choice(same)
                 perm[x], perm[y] = y, x
-            emit(dict(what='cov_apply_charge_mapping', **{'in': [pick()]}, perm=perm))
+            emit(dict(what='cov_apply_charge_mapping', **{'in': [i]}, perm=perm))
             return
         if k == 'flip':
             j = emit(dict(what='cov_flip_leg', **{'in': [i]}, axis=rng.randrange(a.rank)))
@@ -691,7 +691,7 @@ def gen_coverage_case(g, rng, max_steps):
             gs = [rng.randint(1, 2), rng.randint(1, 2)]
             if int(np.prod(a.shape)) * gs[0] * gs[1] > MAX_SIZE:
                 return
-            sib = [x for x in arrs() if g.compatible(a, vals[x])]
+            sib = [x for x in arrs() if g.compatible(a, vals[x]) and vals[x]._labels == a._labels]
             ids = [i] + ([rng.choice(sib)] if sib else [])
             cells = [rng.choice(list(range(len(ids))) + [None]) for _ in range(gs[0] * gs[1])]
             # no row / column of the grid may consist of None only
@@ -819,8 +819,87 @@ def gen_coverage_case(g, rng, max_steps):
             if int(np.prod(a.shape)) * 2 <= MAX_SIZE:
                 emit(dict(op='concatenate', via='concatenate', **{'in': [i, j]}, axis=ax))
 
-    recipes = [r_constructors, r_labels, r_arith, r_charges, r_indexing, r_grids, r_detect, r_pipes, r_flipped]
-    weights = [3, 2, 3, 2, 3, 2, 2, 3, 3]
+    def r_reported():
+        """calls on which the model was found to deviate (prover round 3): concatenate with an operand of lower
+        rank, sort_legcharge with nothing selected, a[i] with fewer integers than legs, qconj not in {+1, -1},
+        ChargeInfo names (compatible and conflicting)"""
+        k = rng.choice(['sort_none', 'partial', 'partial', 'names_ok', 'names_ok', 'names_bad', 'concat_rank', 'qconj'])
+        i = pick()
+        a = vals[i]
+        if k == 'sort_none':
+            if rng.random() < 0.5:
+                emit(dict(op='sort_legcharge', via='bools', **{'in': [i]}, sort=[False] * a.rank, bunch=[False] * a.rank))
+            else:
+                emit(dict(op='sort_legcharge', via='lists', **{'in': [i]}, sort=[False] * a.rank, bunch=[False] * a.rank))
+        elif k == 'partial':
+            if a.rank >= 2 and all(n > 0 for n in a.shape):
+                n = rng.randint(1, a.rank - 1)
+                emit(dict(op='getitem_int', **{'in': [i]},
+                          inds=[rng.randrange(s) - (s if rng.random() < 0.3 else 0) for s in a.shape[:n]]))
+                if rng.random() < 0.3:       # malformed: out of range / too many
+                    bad = [rng.randrange(s) for s in a.shape[:n]]
+                    bad[0] = a.shape[0] + rng.randint(0, 1) if rng.random() < 0.5 else -a.shape[0] - 1
+                    emit(dict(op='getitem_int', **{'in': [i]}, inds=bad), malformed=True)
+        elif k in ('names_ok', 'names_bad'):
+            base = operands[0]
+            if not mods or any(not l['charges'] for l in base['legs']):
+                return
+            cur = base.get('names') or [''] * len(mods)
+
+            def fresh(names):
+                d = arrgen.gen_tensor(rng, mods, base['legs'], dtype=base['dtype'], qtotal=base['qtotal'], p_store=0.8)
+                _, dd = dense_of_desc(d)
+                return emit(dict(op='from_ndarray', **{'in': []}, legs=[dict(l) for l in base['legs']], mods=mods,
+                                 qtotal=base['qtotal'], dtype=base['dtype'], labels=base['labels'], dense=dd, names=names))
+            if k == 'names_ok':
+                # missing names are ignored by ChargeInfo.__eq__
+                other = [n if rng.random() < 0.5 else '' for n in cur] if any(cur) else ['Q%d' % t if rng.random() < 0.7 else '' for t in range(len(mods))]
+                x, y = 0, fresh(other)
+                bad = False
+            else:
+                x = fresh(['A%d' % t for t in range(len(mods))])
+                y = fresh(['A0' if t else 'B0' for t in range(len(mods))] if len(mods) > 1 and rng.random() < 0.5
+                          else ['B%d' % t for t in range(len(mods))])
+                bad = True
+            if x is None or y is None:
+                return
+            ax, bx = vals[x], vals[y]
+            op = rng.choice(['add', 'binary', 'outer', 'inner', 'concat', 'tensordot'])
+            small = g.mag(ax) * g.mag(bx) * max(1, int(np.prod(ax.shape))) < 2 ** 20
+            if op == 'add':
+                emit(dict(op='iadd_prefactor_other', via='direct', **{'in': [x, y]}, p=rng.choice([1, -1, 2])), malformed=bad)
+            elif op == 'binary':
+                emit(dict(op='binary_blockwise', via='binary_blockwise', **{'in': [x, y]}, f=rng.choice(['add', 'sub'])), malformed=bad)
+            elif op == 'outer' and int(np.prod(ax.shape)) ** 2 <= MAX_SIZE and ax.rank <= 3:
+                emit(dict(op='outer', **{'in': [x, y]}), malformed=bad)
+            elif op == 'inner' and small:
+                emit(dict(op='inner', **{'in': [x, y]}, axes='range', do_conj=True), malformed=bad)
+            elif op == 'concat' and int(np.prod(ax.shape)) * 2 <= MAX_SIZE:
+                emit(dict(op='concatenate', via='concatenate', **{'in': [x, y]}, axis=rng.randrange(ax.rank)), malformed=bad)
+            elif op == 'tensordot' and small and ax.rank >= 2:
+                c = emit(dict(op='conj', via='conj', **{'in': [y]}))
+                if c is not None:
+                    kk = rng.randint(1, ax.rank - 1)         # the result keeps a leg of the first operand
+                    axs = rng.sample(range(ax.rank), kk)
+                    if int(np.prod([s_ for t, s_ in enumerate(ax.shape) if t not in axs])) ** 2 <= MAX_SIZE:
+                        emit(dict(op='tensordot', **{'in': [x, c]}, axes=[axs, axs]), malformed=bad)
+        elif k == 'concat_rank':
+            if a.rank > 5 or int(np.prod(a.shape)) * 2 > MAX_SIZE:
+                return
+            c = emit(dict(op='add_trivial_leg', **{'in': [i]}, axis=a.rank, label=None, qconj=rng.choice([1, -1])))
+            if c is not None:   # [rank r+1, rank r] along the last axis of the first: `a.legs[axis]` fails
+                emit(dict(op='concatenate', via='concatenate', **{'in': [c, i]}, axis=rng.choice([a.rank, -1])), malformed=True)
+        else:
+            if rng.random() < 0.5:
+                emit(dict(op='add_trivial_leg', **{'in': [i]}, axis=rng.randint(0, a.rank), label=None,
+                          qconj=rng.choice([0, 2, -2, 3])), malformed=True)
+            elif a.rank >= 2:
+                grp = rng.sample(range(a.rank), 2)
+                emit(dict(op='combine_legs', **{'in': [i]}, cl=[[g.axis_arg(a, x) for x in grp]],
+                          qconj=[rng.choice([0, 2, -3])], via=rng.choice(['single', None])), malformed=True)
+
+    recipes = [r_constructors, r_labels, r_arith, r_charges, r_indexing, r_grids, r_detect, r_pipes, r_flipped, r_reported]
+    weights = [3, 2, 3, 2, 3, 2, 2, 3, 3, 4]
     n = rng.randint(2, 4)
     for _ in range(3 * n):
         if len(case['steps']) >= max(3, min(max_steps + 1, 9)):
